@@ -62,8 +62,8 @@ def _build_world(ctx, n):
 			info.append(dict(info[j], dup_of=j))
 			ctx.probe('duplicate_path')
 			continue
-		kind = ch.weighted([('ok', 84), ('empty', 4), ('header_only', 3), ('trunc_gz', 2), ('crc_gz', 2),
-		                    ('nonutf8', 2), ('missing', 2), ('nofasta', 1)], f'kind{i}')
+		kind = ch.weighted([('ok', 83), ('empty', 4), ('header_only', 3), ('trunc_gz', 2), ('crc_gz', 2),
+		                    ('nonutf8', 2), ('missing', 2), ('nofasta', 2)], f'kind{i}')
 		rng = random.Random(ch.subseed(f'content{i}'))
 		# size skew: later files small more often, so that "later finishes first" is natural
 		size_class = ch.pick(['m', 's', 'l'], f'size{i}')
@@ -153,10 +153,18 @@ def _progress(ch):
 	return None
 
 
-def _check(ctx, files_paths, refs, outcome, fired_pool_fault, transient_fired, desc):
+def _check(ctx, files_paths, refs, outcome, fired_pool_fault, transient_fired, desc, model_unreadable=()):
 	"""The oracle. outcome = ('ret', value) | ('raised', exc)."""
 	n = len(files_paths)
 	unreadable = [i for i in range(n) if refs[i][0] == 'unreadable']
+	# independent of the code under test: inputs that are unreadable/unparseable by construction (no such
+	# file; gzip stream cut before its trailer; non-blank text with no FASTA header line before it)
+	for i in model_unreadable:
+		if i not in unreadable:
+			unreadable.append(i)
+			refs = list(refs)
+			refs[i] = ('unreadable', 'by construction: ' + desc['kinds'][i])
+	unreadable.sort()
 	if outcome[0] == 'raised':
 		if unreadable or fired_pool_fault or transient_fired:
 			return
@@ -203,8 +211,11 @@ def _check(ctx, files_paths, refs, outcome, fired_pool_fault, transient_fired, d
 		ctx.violation('C13.wrong-content', f'returned collection carries k-mer parameters {ks} instead of {desc["kspec"]}')
 
 
+MODEL_UNREADABLE = ('missing', 'trunc_gz', 'nofasta')
+
+
 def _execute(ctx, kspec, paths, refmaker, mode, workers, policy, script, starve, seam_specs, pool_faults,
-             interrupt_at, progress, machine):
+             interrupt_at, progress, machine, info=None):
 	"""One execution of calc_file_signatures under the simulator. Returns nothing; raises Violation."""
 	from gambit.seq import SequenceFile
 	from gambit.sigs.calc import calc_file_signatures
@@ -258,8 +269,10 @@ def _execute(ctx, kspec, paths, refmaker, mode, workers, policy, script, starve,
 	transient = bool(plan.transient_fired)
 	fired_any = sum(ctx.faults.values()) > nf0
 	order = list(sim.completion_order)
-	desc = dict(mode=mode, workers=workers, order=order, kspec=kspec)
-	unread = [i for i in range(n) if refs[i][0] == 'unreadable']
+	kinds = [i['kind'] for i in info] if info else ['ok'] * n
+	model_unread = [i for i in range(n) if kinds[i] in MODEL_UNREADABLE]
+	desc = dict(mode=mode, workers=workers, order=order, kspec=kspec, kinds=kinds)
+	unread = sorted(set([i for i in range(n) if refs[i][0] == 'unreadable'] + model_unread))
 	oc = 'ret' if outcome[0] == 'ret' else 'raised:' + type(outcome[1]).__name__
 	ctx.log('exec', n=n, mode=mode, workers=workers, policy=policy, order=order, unreadable=unread,
 	        seam={os.path.basename(p): sorted(s.items()) for p, s in seam_specs.items() if set(s) - {'short'}},
@@ -275,7 +288,7 @@ def _execute(ctx, kspec, paths, refmaker, mode, workers, policy, script, starve,
 		ctx.probe('unreadable_input_present')
 		if outcome[0] == 'raised':
 			ctx.probe('failed_as_required')
-	_check(ctx, paths, refs, outcome, fired_pool, transient, desc)
+	_check(ctx, paths, refs, outcome, fired_pool, transient, desc, model_unread)
 
 
 def _res_hash(res):
@@ -338,7 +351,7 @@ def scenario(ctx):
 					extra = dict(open_error=errno.EACCES) if fault_kind == 'eacces' else dict(eio_at=1, transient=False)
 					specs[paths[fpos]] = _merge(specs.get(paths[fpos]), extra)
 				_execute(ctx, kspec, paths, refmaker, mode, workers, 'script', list(perm), None, specs, {}, None,
-				         None, workers)
+				         None, workers, info)
 				count += 1
 		ctx.stats['exhaustive_worlds'] += 1
 		ctx.stats['exhaustive_executions'] += count
@@ -370,5 +383,5 @@ def scenario(ctx):
 		interrupt_at = ch.int(1, max(1, n), L + '.int_at') if (n and ch.flip(0.07, L + '.interrupt')) else None
 		progress = _progress(ch)
 		_execute(ctx, kspec, paths, refmaker, mode, workers, policy, None, starve, specs, pool_faults,
-		         interrupt_at, progress, machine)
+		         interrupt_at, progress, machine, info)
 	ctx.sample = dict(kind='sampled', n=n, executions=n_exec)
